@@ -480,7 +480,7 @@ def start(env):
     """launch the worker pool (it runs while the other parts of C08 run)"""
     tier = env['tier']
     if tier == 'quick':
-        nproc, per, depth, lims = 4, 420, 4, 4
+        nproc, per, depth, lims = 4, 800, 4, 4
     else:
         nproc, per, depth, lims = 6, 5000, 5, 6
     obj_max = obj_max_of(env)
